@@ -731,6 +731,43 @@ func (e *Engine) dispatch(s *State, f *Frame, fn *ssa.Function, args []Value, bi
 		nv := Add(e.load(s, p, site).(*Term), args[1].(*Term))
 		e.store(s, p, nv, site)
 		set(nv)
+	case "sync/atomic.CompareAndSwapInt32", "sync/atomic.CompareAndSwapUint32", "sync/atomic.CompareAndSwapInt64", "sync/atomic.CompareAndSwapUint64":
+		p := args[0].(*Ptr)
+		cur := e.load(s, p, site).(*Term)
+		old, nw := args[1].(*Term), args[2].(*Term)
+		return e.forkBool(s, f, Eq(cur, old), func(st *State, yes bool) {
+			if yes {
+				e.store(st, p, nw, site)
+			}
+			setRes(st, x, B(yes))
+		})
+	case "(*sync.Pool).Get":
+		// hidden shared state by definition: recorded as a write to the pool object; the object handed out is a
+		// fresh one from New (reuse of an earlier object is not modelled: the path is flagged imprecise)
+		pp := args[0].(*Ptr)
+		if pp.Obj == 0 {
+			s.panicd = "nil *sync.Pool at " + site
+			return nil
+		}
+		e.access(s, pp.Obj, true, site)
+		s.imprec = append(s.imprec, "sync.Pool.Get modelled as New() at "+site)
+		pool := e.load(s, pp, site).(*StructV)
+		var newFn *FuncV
+		for _, fld := range pool.F {
+			if fv, ok := fld.(*FuncV); ok && fv.Fn != nil {
+				newFn = fv
+			}
+		}
+		if newFn == nil {
+			set(&IfaceV{})
+			return nil
+		}
+		e.pushCallBind(s, newFn.Fn, nil, newFn.Bind, x)
+	case "(*sync.Pool).Put":
+		pp := args[0].(*Ptr)
+		if pp.Obj != 0 {
+			e.access(s, pp.Obj, true, site)
+		}
 	case "unsafe.String":
 		panic(engineUnsupported("unsafe.String as a function"))
 	default:
